@@ -381,8 +381,19 @@ def find_check_cache(context):
         context.build['find_dirs'].update(seen_dirs)
 
     if not regenerate:
-        # We don't want to regenerate. To make sure the build backend is happy,
-        # update the modification time of all the output files.
+        # We don't want to regenerate. However, the set of directories we
+        # searched may have changed even though the results didn't (e.g. a
+        # new, empty subdirectory), so keep the depfile up to date.
+        if context.build['find_dirs']:
+            is_make = context.env.backend == 'make'
+            target = regen_files.outputs[0]
+            if is_make and len(regen_files.outputs) > 1:
+                target = target.addext('.stamp')
+            write_depfile(context.env, Path(depfile_name), target,
+                          context.build['find_dirs'], makeify=is_make)
+
+        # To make sure the build backend is happy, update the modification
+        # time of all the output files.
         for i in regen_files.outputs:
             if _path.exists(i, context.env.base_dirs):
                 _path.touch(i, context.env.base_dirs)
